@@ -11,7 +11,7 @@ open JediModel.Nesting
 open JediModel.Scopes (Kind)
 
 theorem walkUp_hit {p : NProg} {c : Nat} {sc : NScope} (col : Nat) (hs : p.scopes[c]? = some sc)
-    (hd : (sc.kind == Kind.function || sc.kind == Kind.klass) = true) (hcol : sc.start.col < col) :
+    (hd : (sc.kind == Kind.function || sc.kind == Kind.klass) = true) (hcol : sc.stmt.col < col) :
     ∀ f, 0 < f → walkUp p col f c = .ok c := by
   intro f hf
   cases f with
@@ -24,9 +24,10 @@ theorem walkUp_hit {p : NProg} {c : Nat} {sc : NScope} (col : Nat) (hs : p.scope
     simp [hm, hd, hcol]
 
 /-- **Tree form.**  On a well-formed table, for a position on a leaf (not in a prefix) such that
-every enclosing definition starts left of the position's column and no lambda on the way up sits
-directly in a class body (`LeafHyp`), `get_context` is the innermost `def` / `class` around the
-leaf that starts before the position — the module if there is none. -/
+the statement of every enclosing definition (`async def`: the `async` keyword) starts left of the
+position's column (`LeafHyp`), `get_context` is the innermost `def` / `class` around the leaf that
+starts before the position — the module if there is none.  Lambdas and comprehensions on the way
+up, in class bodies too, are passed through. -/
 theorem context_eq_chain (p : NProg) (hwf : WF p = true) (pos : Pos) (i : Nat) (l : Leaf)
     (hi : chooseLeaf p pos = .ok i) (hl : p.leaves[i]? = some l) (hyp : LeafHyp p pos l = true) :
     getContext p pos = .ok (firstDefBefore p pos (defChain p p.fuel l.pscope)) := by
@@ -44,10 +45,10 @@ theorem context_eq_chain (p : NProg) (hwf : WF p = true) (pos : Pos) (i : Nat) (
   simp only [Bool.and_eq_true, List.all_eq_true] at hL
   obtain ⟨hLs, hLl⟩ := hL
   have hleaf := hLl l hmem
-  obtain ⟨hW5, hW9⟩ := hleaf
+  obtain ⟨⟨hW5, hW9⟩, hW10⟩ := hleaf
   unfold LeafHyp at hyp
-  simp only [Bool.and_eq_true, decide_eq_true_eq, Bool.or_eq_true] at hyp
-  obtain ⟨⟨⟨hon1, hon2⟩, hnd⟩, hseg⟩ := hyp
+  simp only [Bool.and_eq_true, decide_eq_true_eq] at hyp
+  obtain ⟨⟨hon1, hon2⟩, hnd⟩ := hyp
   have hfuel : p.fuel = p.scopes.length + 1 := rfl
   unfold getContext contextAt
   rw [hi]
@@ -85,7 +86,7 @@ theorem context_eq_chain (p : NProg) (hwf : WF p = true) (pos : Pos) (i : Nat) (
           simp only [Option.some.injEq] at hsc'
           subst hsc'
           have hst : startLt p pos n' = true := by simp [startLt, hsn, hcond.1]
-          have hcol : scn.start.col < pos.col := by
+          have hcol : scn.stmt.col < pos.col := by
             rw [hrest] at hnd
             simp only [noDedent, List.all_cons, Bool.and_eq_true, hsn] at hnd
             simpa [hcond.1] using hnd.1
@@ -94,10 +95,32 @@ theorem context_eq_chain (p : NProg) (hwf : WF p = true) (pos : Pos) (i : Nat) (
         · simp at hh
   | none =>
     simp only
+    -- a lambda in a `def` / `class` header on the way up: the leaf lies in that header (W10) and
+    -- the header rule would have fired
     have hsegOK : lamSegOK p p.fuel l.pscope = true := by
-      rcases hseg with h1 | h1
-      · rw [hh] at h1; simp at h1
-      · exact h1
+      cases hso : lamSegOK p p.fuel l.pscope with
+      | true => rfl
+      | false =>
+        exfalso
+        rw [hso] at hW10
+        simp only [Bool.false_or] at hW10
+        unfold headerOf at hh
+        rw [defFrom_eq_head] at hh
+        cases hhd : (defChain p p.fuel l.pscope).head? with
+        | none => rw [hhd] at hW10; simp at hW10
+        | some n =>
+          rw [hhd] at hW10 hh
+          simp only at hW10 hh
+          cases hsn : p.scopes[n]? with
+          | none => rw [hsn] at hW10; simp at hW10
+          | some scn =>
+            rw [hsn] at hW10 hh
+            simp only [Bool.and_eq_true, decide_eq_true_eq] at hW10 hh
+            have hc : scn.start < pos ∧ pos ≤ scn.suite := by
+              simp only [Pos.lt_def, Pos.le_def] at hW10 hon1 hon2 ⊢
+              omega
+            rw [if_pos hc] at hh
+            simp at hh
     -- the header rule did not fire for the head of the chain
     have hnofire : ∀ n scn, (defChain p p.fuel l.pscope).head? = some n → p.scopes[n]? = some scn →
         ¬ (scn.start < pos ∧ pos ≤ scn.suite) := by
@@ -223,13 +246,15 @@ theorem context_eq_chain (p : NProg) (hwf : WF p = true) (pos : Pos) (i : Nat) (
           exact ⟨by rw [← heq]; exact h11.1, hnp⟩
 
 /-- **context_is_innermost_body.**  For a position on code of a well-formed table whose tree nests
-like its text, under `ContextHyp` (the two excluded shapes are the counter-witnesses below),
+like its text, under `ContextHyp` (position on a leaf; the statement of no enclosing definition
+starts at or right of its column — the excluded shape is the counter-witness `dedent_witness`),
 `get_context` is the innermost function or class whose statement contains the position, the module
-otherwise.  Header positions (`def` / `class` keyword after its first character, name, parameters,
+otherwise.  Bodies of `async def` (every column right of `async`) and lambdas / comprehensions
+directly in class bodies are covered (`async_def_fixed`, `lambda_in_class_fixed`).  Header positions (`def` / `class` keyword after its first character, name, parameters,
 defaults, annotations, bases, colon) belong to the definition itself; its decorators, the first
 character of the keyword and `async` belong to the enclosing scope.
 
-FULL (false, see `lambda_in_class_witness`, `async_def_witness`, `dedent_witness`):
+FULL (false, see `dedent_witness`):
   `WF p → chooseLeaf p pos = .ok i → p.leaves[i]? = some l → l.start ≤ pos → pos ≤ l.stop →
      getContext p pos = .ok (innermostBody p pos)` -/
 theorem context_is_innermost_body_partial (p : NProg) (hwf : WF p = true) (pos : Pos) (i : Nat)
@@ -258,19 +283,23 @@ example : WF wOk = true ∧ chooseLeaf wOk ⟨3, 8⟩ = .ok 11 ∧
   exact ⟨by decide, by decide⟩
 
 open JediModel.Nesting.Witness in
-/-- counter-witness (a lambda directly in a class body): on `b` in `class K: a = lambda c: b`
-the answer is the module, the innermost containing class is `K`.  Reproduced on the real code. -/
-theorem lambda_in_class_witness :
-    WF wLam = true ∧ chooseLeaf wLam ⟨2, 18⟩ = .ok 9 ∧ getContext wLam ⟨2, 18⟩ = .ok 0 ∧
-      innermostBody wLam ⟨2, 18⟩ = 1 ∧ ContextHyp wLam ⟨2, 18⟩ = false := by decide
+/-- fixed behaviour (a lambda directly in a class body; was `lambda_in_class_witness`): on `b` in
+`class K: a = lambda c: b` every hypothesis holds and the answer is `K`: `parent()` of the lambda's
+name is `create_context(lambda node)`, the class context. -/
+theorem lambda_in_class_fixed :
+    WF wLam = true ∧ chooseLeaf wLam ⟨2, 18⟩ = .ok 9 ∧ ContextHyp wLam ⟨2, 18⟩ = true ∧
+      getContext wLam ⟨2, 18⟩ = .ok 1 ∧ innermostBody wLam ⟨2, 18⟩ = 1 ∧
+      parentOfScope wLam 2 = some 1 := by decide
 
 open JediModel.Nesting.Witness in
-/-- counter-witness (`async def`): the funcdef node starts at `def`, six columns right of
-`async`; a body line indented by four is "left of the definition" and the walk leaves `f`.
-Reproduced on the real code. -/
-theorem async_def_witness :
-    WF wAsync = true ∧ chooseLeaf wAsync ⟨2, 4⟩ = .ok 7 ∧ getContext wAsync ⟨2, 4⟩ = .ok 0 ∧
-      innermostBody wAsync ⟨2, 4⟩ = 1 ∧ ContextHyp wAsync ⟨2, 4⟩ = false := by decide
+/-- fixed behaviour (`async def`; was `async_def_witness`): the indentation loop looks at the column
+of `async` (the statement), not of `def`; a body line indented by four (columns 1..6 lie between
+the two keywords) satisfies every hypothesis and the answer is `f`. -/
+theorem async_def_fixed :
+    WF wAsync = true ∧ chooseLeaf wAsync ⟨2, 4⟩ = .ok 7 ∧ ContextHyp wAsync ⟨2, 4⟩ = true ∧
+      getContext wAsync ⟨2, 4⟩ = .ok 1 ∧ innermostBody wAsync ⟨2, 4⟩ = 1 ∧
+      (wAsync.scopes[1]?).map (fun sc => (sc.start, sc.stmt)) = some (⟨1, 6⟩, ⟨1, 0⟩) ∧
+      getContext wAsync ⟨2, 1⟩ = .ok 1 ∧ getContext wAsync ⟨2, 0⟩ = .ok 0 := by decide
 
 open JediModel.Nesting.Witness in
 /-- counter-witness (continuation line not right of the enclosing `def`): `a` at column 0 inside
@@ -300,25 +329,26 @@ theorem chainFrom_defOrModule {p : NProg} (h : WFS p = true) (x : Nat) (hx : x <
     have hdn := mem_defChain_isDef p p.fuel _ _ (List.mem_of_mem_head? hh)
     rw [chainFrom_def h n (by omega) (Or.inl hdn) f (by omega), hd.1]
 
-/-- **parent_chain_eq_enclosing.**  Iterating `parent()` from a definition visits exactly the
-`def` / `class` statements around it, innermost first, then the module (scope 0) — for every
-`def` / `class` name, every parameter (also of lambdas: the lambda itself is not visited), and
-every assigned name whose first named context is not a lambda.
+/-- **parent_chain_eq_enclosing.**  Iterating `parent()` from a definition visits — lambdas aside —
+exactly the `def` / `class` statements around it, innermost first, then the module (scope 0): for
+every `def` / `class` name, every parameter (also of lambdas), and every assigned name (also inside
+lambdas, directly in class bodies too) unless a lambda on the way sits in the *header* (default,
+annotation, base) of the `def` / `class` around it.
 
-FULL (false, see `lambda_chain_witness`): the same for every assigned name. -/
+FULL (false, see `header_lambda_chain_witness`): the same for every assigned name. -/
 theorem parent_chain_eq_enclosing_partial (p : NProg) (hS : WFS p = true) (i : Nat) (l : Leaf)
     (hl : p.leaves[i]? = some l) (hyp : ChainHyp p i = true) :
-    parentChain p i = defChain p p.fuel (chainStart p l) ++ [0] := by
+    (parentChain p i).filter (notLambda p) = defChain p p.fuel (chainStart p l) ++ [0] := by
   have hlp : l.pscope < p.scopes.length := by
     have := hS
     unfold WFS at this
     simp only [Bool.and_eq_true, List.all_eq_true, decide_eq_true_eq] at this
     exact this.2 l (List.mem_of_getElem? hl)
   have hfuel : p.fuel = p.scopes.length + 1 := rfl
-  unfold ChainHyp at hyp
+  unfold ChainHyp IsDefinition at hyp
   rw [hl] at hyp
   simp only at hyp
-  unfold parentChain parentOfLeaf chainStart
+  unfold parentChain parentOfLeaf
   rw [hl]
   simp only
   cases hr : l.role with
@@ -328,48 +358,123 @@ theorem parent_chain_eq_enclosing_partial (p : NProg) (hS : WFS p = true) (i : N
   | use => rw [hr] at hyp; simp at hyp
   | defName s =>
     rw [hr] at hyp
-    simp only [Bool.and_eq_true, decide_eq_true_eq] at hyp
+    simp only [Bool.and_eq_true, decide_eq_true_eq, Bool.and_true] at hyp
     have hne : p.kind s ≠ .module := by
       have := hyp.2
       unfold NProg.isDef at this
       intro hc; rw [hc] at this; simp at this
     have hlt := WFS.pscope_lt hS hne
+    have hcs : chainStart p l = p.pscope s := by unfold chainStart; rw [hr]
     simp only
+    rw [hcs, chainFrom_defOrModule hS _ (by omega) _ (by omega)]
+    exact filter_notLambda_defChain hS _
+  | param =>
+    have hcs : chainStart p l = l.pscope := by unfold chainStart; rw [hr]
+    simp only
+    rw [hcs, chainFrom_defOrModule hS _ hlp _ (by omega)]
+    exact filter_notLambda_defChain hS _
+  | bind =>
+    rw [hr] at hyp
+    simp only [Bool.true_and] at hyp
+    have hcs : chainStart p l = scopeOfNode p l.start l.pscope l.isParamName := by
+      unfold chainStart; rw [hr]
+    have hx := scopeOfNode_lt hS l.start l.pscope l.isParamName hlp
+    simp only
+    unfold createContext
+    rw [skipComps_fromScope hS _ _ _ hx]
+    rw [hcs] at hyp ⊢
+    exact chainFrom_filter hS _ hx hyp _ (by omega)
+
+/-- **No lambda visited.**  When the first named context of the definition is not a lambda (always
+so for `def` / `class` names and parameters), the chain is exactly the enclosing definitions and
+the module: no lambda is visited. -/
+theorem parent_chain_exact (p : NProg) (hS : WFS p = true) (i : Nat) (l : Leaf)
+    (hl : p.leaves[i]? = some l) (hyp : NoLambdaHyp p i = true) :
+    parentChain p i = defChain p p.fuel (chainStart p l) ++ [0] := by
+  have hlp : l.pscope < p.scopes.length := by
+    have := hS
+    unfold WFS at this
+    simp only [Bool.and_eq_true, List.all_eq_true, decide_eq_true_eq] at this
+    exact this.2 l (List.mem_of_getElem? hl)
+  have hfuel : p.fuel = p.scopes.length + 1 := rfl
+  unfold NoLambdaHyp IsDefinition at hyp
+  rw [hl] at hyp
+  simp only at hyp
+  unfold parentChain parentOfLeaf
+  rw [hl]
+  simp only
+  cases hr : l.role with
+  | other => rw [hr] at hyp; simp at hyp
+  | newline => rw [hr] at hyp; simp at hyp
+  | endmarker => rw [hr] at hyp; simp at hyp
+  | use => rw [hr] at hyp; simp at hyp
+  | defName s =>
+    rw [hr] at hyp
+    simp only [Bool.and_eq_true, decide_eq_true_eq, Bool.and_true] at hyp
+    have hne : p.kind s ≠ .module := by
+      have := hyp.2
+      unfold NProg.isDef at this
+      intro hc; rw [hc] at this; simp at this
+    have hlt := WFS.pscope_lt hS hne
+    have hcs : chainStart p l = p.pscope s := by unfold chainStart; rw [hr]
+    simp only
+    rw [hcs]
     exact chainFrom_defOrModule hS _ (by omega) _ (by omega)
   | param =>
+    have hcs : chainStart p l = l.pscope := by unfold chainStart; rw [hr]
     simp only
+    rw [hcs]
     exact chainFrom_defOrModule hS _ hlp _ (by omega)
   | bind =>
     rw [hr] at hyp
-    simp only [Bool.and_eq_true, beq_iff_eq, bne_iff_ne, ne_eq] at hyp
+    simp only [Bool.true_and, bne_iff_ne, ne_eq] at hyp
+    have hcs : chainStart p l = scopeOfNode p l.start l.pscope l.isParamName := by
+      unfold chainStart; rw [hr]
+    have hx := scopeOfNode_lt hS l.start l.pscope l.isParamName hlp
     simp only
     unfold createContext
-    rw [hyp.1, skipComps_fromScope hS _ _ _ hlp]
-    have sp := skipComps_spec hS l.pscope hlp
-    have hk : p.isDef (skipComps p p.fuel l.pscope) = true ∨ p.kind (skipComps p p.fuel l.pscope) = .module := by
+    rw [skipComps_fromScope hS _ _ _ hx]
+    rw [hcs] at hyp ⊢
+    have sp := skipComps_spec hS _ hx
+    have hk : p.isDef (skipComps p p.fuel (scopeOfNode p l.start l.pscope l.isParamName)) = true ∨
+        p.kind (skipComps p p.fuel (scopeOfNode p l.start l.pscope l.isParamName)) = .module := by
       unfold NProg.isDef
-      cases hkk : p.kind (skipComps p p.fuel l.pscope) with
+      cases hkk : p.kind (skipComps p p.fuel (scopeOfNode p l.start l.pscope l.isParamName)) with
       | module => right; rfl
       | function => left; rfl
       | klass => left; rfl
-      | lambda => exact absurd hkk hyp.2
+      | lambda => exact absurd hkk hyp
       | comp => exact absurd hkk sp.2.1
     rw [chainFrom_def hS _ (by omega) hk _ (by omega), sp.2.2.1]
 
 open JediModel.Nesting.Witness in
 /-- non-vacuity: `a` in `f` in `K` has the chain `f, K, module`; the parameter `p` of `f` and the
 name `f` itself too -/
-example : WFS wOk = true ∧ ChainHyp wOk 11 = true ∧ parentChain wOk 11 = [2, 1, 0] ∧
-    ChainHyp wOk 7 = true ∧ parentChain wOk 7 = [2, 1, 0] ∧
-    ChainHyp wOk 5 = true ∧ parentChain wOk 5 = [1, 0] := by decide
+example : WFS wOk = true ∧ ChainHyp wOk 11 = true ∧ NoLambdaHyp wOk 11 = true ∧
+    parentChain wOk 11 = [2, 1, 0] ∧
+    ChainHyp wOk 7 = true ∧ NoLambdaHyp wOk 7 = true ∧ parentChain wOk 7 = [2, 1, 0] ∧
+    ChainHyp wOk 5 = true ∧ NoLambdaHyp wOk 5 = true ∧ parentChain wOk 5 = [1, 0] := by decide
 
 open JediModel.Nesting.Witness in
-/-- counter-witness: the comprehension variable in `class K: a = lambda: [b for b in it]` has the
-chain `<lambda>, module`: the class `K` (scope 1), which contains it, is never visited.
-Reproduced on the real code. -/
-theorem lambda_chain_witness :
-    WF wLamComp = true ∧ ChainHyp wLamComp 11 = false ∧ parentChain wLamComp 11 = [2, 0] ∧
+/-- fixed behaviour (was `lambda_chain_witness`): the comprehension variable in
+`class K: a = lambda: [b for b in it]` satisfies `ChainHyp`; its chain is `<lambda>, K, module`:
+the class `K` (scope 1), which contains it, is visited. -/
+theorem lambda_chain_fixed :
+    WF wLamComp = true ∧ ChainHyp wLamComp 11 = true ∧ parentChain wLamComp 11 = [2, 1, 0] ∧
+      (parentChain wLamComp 11).filter (notLambda wLamComp) = [1, 0] ∧
       enclosers wLamComp ⟨2, 23⟩ = [1] := by decide
+
+open JediModel.Nesting.Witness in
+/-- counter-witness (a lambda in a `def` header): the comprehension variable in
+`def d(q=lambda: [b for b in it]): pass` has the chain `<lambda>, module`: `create_context` of the
+lambda node applies the header rule (the default is evaluated outside `d`), so the `def` statement
+`d` (scope 1), which contains it textually, is not visited.  (A comprehension directly in the
+default, without the lambda, does visit `d`.) -/
+theorem header_lambda_chain_witness :
+    WF wHdrLam = true ∧ IsDefinition wHdrLam 10 = true ∧ ChainHyp wHdrLam 10 = false ∧
+      parentChain wHdrLam 10 = [2, 0] ∧ defChain wHdrLam wHdrLam.fuel (chainStart wHdrLam
+        { start := ⟨1, 23⟩, stop := ⟨1, 24⟩, pscope := 3, isParamName := false, role := .bind, name := "b" }) = [1] ∧
+      enclosers wHdrLam ⟨1, 23⟩ = [1] := by decide
 
 /-! ## full_name -/
 
@@ -466,7 +571,11 @@ theorem source_shapes :
     JediModel.Gen.C18.createContextHeaderRule = ["node.start_pos", "<", "colon.start_pos"] ∧
     JediModel.Gen.C18.compLastChildRule = ["node.start_pos", ">=", "scope_node.children[-1].start_pos"] ∧
     JediModel.Gen.C18.scopeNodeTypes = ["file_input", "classdef", "funcdef", "lambdef", "sync_comp_for"] ∧
-    JediModel.Gen.C18.lambdaName = "<lambda>" := by decide
+    JediModel.Gen.C18.lambdaName = "<lambda>" ∧
+    JediModel.Gen.C18.indentStatementParents = ["async_stmt", "async_funcdef"] ∧
+    JediModel.Gen.C18.lambdaParentTest = "isinstance(self._name, (LambdaName, FunctionNameInClass))" ∧
+    JediModel.Gen.C18.lambdaParentContext =
+      "self._get_module_context().create_context(lambda_value.tree_node)" := by decide
 
 /-- **Inside functions.**  Whatever `full_name` answers for a definition (also below functions,
 where it is `none` or a dotted path that is not the run-time `__qualname__`), every component
